@@ -4,7 +4,7 @@
    *_raw assemblies are hand-written models (Charact/*.v) compared with the implementation on every run.
    Property theorems only, each closed by `exact` + Print Assumptions. *)
 From Coq Require Import Reals Lra QArith ZArith String List Bool Sorted.
-From PG Require Import Lib.Num Lib.Py Gen.CharactGen Charact.Ols Charact.Window Charact.ListAux Charact.BetLang Charact.TPlot Charact.DrDa.
+From PG Require Import Lib.Num Lib.Py Gen.CharactGen Charact.Ols Charact.Window Charact.ListAux Charact.BetLang Charact.TPlot Charact.DrDa Charact.BetAuto Charact.DaSearch.
 Import ListNotations.
 Open Scope R_scope.
 
@@ -54,6 +54,18 @@ Theorem rouquerol_window_rule : forall (p roq : list R), StronglySorted Rle p ->
 Proof. exact Window.rouquerol_window_rule. Qed.
 Print Assumptions rouquerol_window_rule.
 
+(* ... and area_BET_raw with p_limits = None never widens it: fewer than three points in [p_M / 10, p_M] -> CalculationError, otherwise
+   the returned window is exactly [m, M] (any grid, however sparse) *)
+Theorem bet_automatic_window_is_never_widened : forall (p l : list R) (cs : R), StronglySorted Rlt p -> length l = length p -> (0 < length p)%nat ->
+  exists m M : nat,
+    (M < length p)%nat /\
+    (forall j, (j + 1 < M)%nat -> nth j (map2 (roq_transform RNum) p l) 0 <= nth (j + 1) (map2 (roq_transform RNum) p l) 0) /\
+    (forall i, (i < length p)%nat -> ((m <= i)%nat <-> nth M p 0 / 10 <= nth i p 0)) /\
+    ((M < m + 2)%nat -> area_BET_raw RNum sqrt p l cs None = Err CalculationError) /\
+    ((m + 2 <= M)%nat -> exists r, area_BET_raw RNum sqrt p l cs None = Ok r /\ b_window r = (Z.of_nat m, Z.of_nat M)).
+Proof. exact BetAuto.bet_auto_window. Qed.
+Print Assumptions bet_automatic_window_is_never_widened.
+
 (* BET / Langmuir on data generated by the code's own simple_bet / simple_lang: every limit choice (None = automatic) *)
 Theorem bet_recovers : forall (nm C cs : R) (p l : list R) limits r, 0 < nm -> 0 < C ->
   StronglySorted Rlt p -> Forall2 (bet_data nm C) p l ->
@@ -100,16 +112,43 @@ Theorem alphas_against_itself_returns_reference_area : forall (ls : list R) (apt
 Proof. exact alphas_self_reference_area. Qed.
 Print Assumptions alphas_against_itself_returns_reference_area.
 
-(* Dubinin-Radushkevich / Astakhov with the exponent given (dr_plot: 2). PARTIAL: the bounded search of the exponent
-   (scipy.optimize.minimize_scalar on the standard error) is an oracle, validated on the implementation only. *)
-Theorem da_recovers_given_exponent_partial : forall (V0 E m T M rho : R) (p l : list R) limits r,
+(* Dubinin-Radushkevich / Astakhov with the exponent given (dr_plot: 2) *)
+Theorem da_recovers_given_exponent : forall (V0 E m T M rho : R) (p l : list R) limits r,
   0 < V0 -> 0 < E -> 0 < m -> 0 < T -> 0 < M -> 0 < rho ->
   StronglySorted Rlt p -> Forall2 (da_data V0 E m T M rho) p l ->
   da_plot_raw RNum ln exp Rpower p l T M rho m limits = Ok r ->
   da_volume r = V0 /\ da_energy r = E /\ da_slope r = - Rpower (gas_R * T / (1000 * E)) m /\ da_intercept r = ln V0 /\
   da_window r = da_window_of RNum p limits /\ da_rsq r = 1.
-Proof. exact da_recovers_given_exponent. Qed.
-Print Assumptions da_recovers_given_exponent_partial.
+Proof. exact DrDa.da_recovers_given_exponent. Qed.
+Print Assumptions da_recovers_given_exponent.
+
+(* ... and with the exponent searched (exp = None). The objective the code minimises over [1, 3] is GENERATED from the nested dr_fit
+   (da_search_objective = stderr / abs(slope), da_search_lower / upper); stderr is linregress's standard error of the slope
+   sqrt((1 - r^2) ssym / ssxm / (n - 2)) (hand-written, Charact/DaSearch.v). On exact data with at least three points the generating
+   exponent is THE global minimiser: the objective is 0 there and positive at every other exponent e > 0. *)
+Theorem da_generating_exponent_is_the_global_minimiser : forall (V0 E m T M rho : R) (ps ls : list R),
+  0 < V0 -> 0 < E -> 0 < m -> 0 < T -> 0 < M -> 0 < rho ->
+  StronglySorted Rlt ps -> Forall2 (da_data V0 E m T M rho) ps ls -> (3 <= length ps)%nat ->
+  da_objective ps ls M rho m = 0 /\ forall e, 0 < e -> e <> m -> 0 < da_objective ps ls M rho e.
+Proof. exact DaSearch.da_generating_exponent_is_the_global_minimiser. Qed.
+Print Assumptions da_generating_exponent_is_the_global_minimiser.
+(* the optimiser (scipy.optimize.minimize_scalar, bounded Brent) is an oracle; its CONTRACT - the returned exponent e is a global minimiser
+   of the objective on the bracket - is the explicit premise. Then e is the generating exponent and V0, E are recovered.
+   PARTIAL in this sense only: that Brent's local search meets the contract is validated on the implementation, not proved. *)
+Theorem da_search_recovers_given_global_minimiser_partial : forall (V0 E m T M rho : R) (p l : list R) limits w (e : R),
+  0 < V0 -> 0 < E -> 0 < T -> 0 < M -> 0 < rho -> da_search_lower RNum <= m <= da_search_upper RNum ->
+  StronglySorted Rlt p -> Forall2 (da_data V0 E m T M rho) p l ->
+  check3 (da_window_of RNum p limits) = Ok w ->
+  da_search_lower RNum <= e <= da_search_upper RNum ->
+  (forall x, da_search_lower RNum <= x <= da_search_upper RNum ->
+     da_objective (slice w p) (slice w l) M rho e <= da_objective (slice w p) (slice w l) M rho x) ->
+  e = m /\
+  forall r, da_plot_raw RNum ln exp Rpower p l T M rho e limits = Ok r -> da_volume r = V0 /\ da_energy r = E /\ da_rsq r = 1.
+Proof. exact DaSearch.da_search_recovers. Qed.
+Print Assumptions da_search_recovers_given_global_minimiser_partial.
+Theorem da_search_bracket : da_search_lower RNum = 1 /\ da_search_upper RNum = 3.
+Proof. exact DaSearch.search_bounds. Qed.
+Print Assumptions da_search_bracket.
 
 Example ols_hypotheses_satisfiable : Forall2 (affine 1 2) [0; 1; 3] [1; 3; 7] /\ two_distinct [0; 1; 3].
 Proof. exact ols_exact_satisfiable. Qed.
@@ -119,3 +158,16 @@ Example bet_data_satisfiable :
 Proof. exact bet_hypotheses_satisfiable. Qed.
 Example window_on_grid : manual_window RNum [0.1; 0.2; 0.3; 0.4; 0.5] (Some 0.2) (Some 0.5) = (1, 3)%Z.
 Proof. exact window_example. Qed.
+Example sparse_grid_automatic_window :
+  let p := [0.001; 0.005; 0.01; 0.2; 0.3] in
+  StronglySorted Rlt p /\ count_lt RNum (nth 4 p 0 * Q2R (1 # 10)) p = 3%nat.
+Proof. exact BetAuto.sparse_grid_window. Qed.
+Example da_search_contract_satisfiable : forall (V0 E m T M rho : R) (ps ls : list R),
+  0 < V0 -> 0 < E -> 0 < T -> 0 < M -> 0 < rho -> da_search_lower RNum <= m <= da_search_upper RNum ->
+  StronglySorted Rlt ps -> Forall2 (da_data V0 E m T M rho) ps ls -> (3 <= length ps)%nat ->
+  forall x, da_search_lower RNum <= x <= da_search_upper RNum -> da_objective ps ls M rho m <= da_objective ps ls M rho x.
+Proof. exact DaSearch.da_search_contract_satisfiable. Qed.
+Example da_data_satisfiable : let k := gas_R * 77 / (1000 * 10) in
+  Forall2 (da_data 1 10 2 77 28 0.8) [/ 8; / 4; / 2]
+    (map (fun p => 1 * exp (- Rpower (k * - ln p) 2) * 0.8 / 28) [/ 8; / 4; / 2]) /\ StronglySorted Rlt [/ 8; / 4; / 2].
+Proof. exact DaSearch.da_data_example. Qed.
